@@ -28,20 +28,25 @@ if os.environ.get("RV_C10_CASES"):      # development knob: run only the first N
     for _t in PLAN.values():
         _t["cases"] = int(os.environ["RV_C10_CASES"])
         _t["min_nontrivial"] = min(_t["min_nontrivial"], _t["cases"] // 2)
-RULE = ("random discrete data frame: 2-5 columns (thorough 2-6), declared cardinalities 1-4 (thorough 1-5), 5-200 rows "
-        "(thorough up to 1000) forward-sampled from a random BN whose CPTs contain exact zeros / deterministic columns "
-        "(so parent configurations and child states go unobserved), plus extra declared-but-never-observed states; "
-        "column dtypes int / offset int / float / bool / object / category / ordered category; string or integer column "
-        "labels; state_names passed for "
-        "all, some or no columns (in declared or shuffled order); ess in {1, 5, 10, 0.3, 2.5, 100}. Per data set: "
-        "4-9 (variable, parent list) probes (0-4 parents; every family of a random DAG on the columns plus random "
-        "extras) x 5 scores against the closed form; parent-list permutations; a row-permuted copy of the frame; "
-        ".score(DAG/BayesianNetwork) and metrics.structure_score against sum-of-locals + prior; ScoreCache with "
-        "max_size in {1,2,3,10000} over a random access sequence of 12-40 calls; for <= 4 columns (thorough <= 5) "
-        "BDeu/BIC/AIC of every DAG on the columns compared inside every Markov-equivalence class. non-trivial: >= 2 "
-        "columns and >= 1 probe with a non-empty parent list whose 5 scores were all returned; distinct by digest of "
-        "the whole spec")
-ASSUMPTIONS = ["math.lgamma / math.log are the reference special functions", "float64 comparisons at 1e-9 abs + 1e-9 rel",
+RULE = ("random discrete data frame: 2-5 columns (thorough 2-6), declared cardinalities 1-4 (thorough 1-5), 1-200 rows "
+        "(incl. 1/2/3 rows; thorough up to 1000; 3% replicated x10/x25 for large counts) forward-sampled from a random BN "
+        "whose CPTs contain exact zeros / deterministic columns (so parent configurations and child states go unobserved), "
+        "plus extra declared-but-never-observed states; column dtypes int / offset int / multi-digit+negative+huge int / "
+        "float / extreme float (0.0 vs 1e-12, 1e8, -2.5e-7) / bool / object / odd strings ('' '10' '02' ' ' 'nan') / "
+        "category / ordered category; string column labels (incl. the empty string) or integer labels; state_names passed "
+        "for all, some or no columns or as {} (declared or shuffled order); ess in {1, 5, 10, 0.3, 2.5, 7.75, 5.0, 100, "
+        "1e-6, 1e-3, 1e4, 1e6} as python number or numpy scalar. Per data set: 4-9 (variable, parents) probes (0-4 "
+        "parents handed over as list / tuple / set, empty ones too; every family of a random DAG plus random extras) x 5 "
+        "scores against the closed form; parent-list permutations; a row-permuted copy of the frame; ONE scorer object "
+        "per score serves all of this plus .score() of 3 different DAGs / BayesianNetworks (first one asked again) and "
+        "metrics.structure_score, each against sum-of-locals + prior; first probes re-asked at the end; ONE ScoreCache "
+        "(max_size in {0,1,2,3,10000}) serves a random access sequence of 12-40 local scores interleaved with .score() "
+        "of the 3 models, each equal to the uncached answer for that call; for <= 4 columns (thorough <= 5) BDeu/BIC/AIC "
+        "of every DAG compared inside every Markov-equivalence class. non-trivial: >= 2 columns and >= 1 probe with a "
+        "non-empty parent list whose 5 scores were all returned; distinct by digest of the whole spec")
+ASSUMPTIONS = ["math.lgamma / math.log are the reference special functions",
+               "float64 comparisons at 1e-9 abs + 1e-9 rel + 1e-14 x (sum of |addends| of the closed form), the last term "
+               "only matters for ess >= 1e4 where single addends are ~1e7",
                "declared states of a column = its entry in state_names if passed, else the states observed in the data "
                "(the documented rule of BaseEstimator)",
                "Markov equivalence = same skeleton and same v-structures (Verma & Pearl)",
@@ -74,7 +79,8 @@ MANIFEST = {
 
 SCORES = ["k2", "bdeu", "bds", "bic", "aic"]
 EQUIV_SCORES = ["bdeu", "bic", "aic"]
-KINDS = ["int", "int", "intoff", "float", "obj", "obj", "cat", "cat", "catord", "bool"]
+KINDS = ["int", "int", "intoff", "float", "obj", "obj", "cat", "cat", "catord", "bool", "bigint", "extfloat", "objodd"]
+ESS_CHOICES = [1, 5, 10, 10, 0.3, 2.5, 100, 7.75, 5.0, 1e-6, 1e-3, 1e4, 1e6]
 
 K_K2_EMPTY = "c10:k2:empty-columns"
 K_BDEU_UNOBS = "c10:bdeu:unobserved-child-state"
@@ -82,6 +88,7 @@ K_BDS_UNOBS = "c10:bds:unobserved-child-state"
 K_BDS_BETA = "c10:bds:beta-denominator"
 K_CACHE_PRIOR = "c10:cache:structure-prior-dropped"
 K_INT_LABELS = "c10:int-column-labels:unstack"
+K_CACHE_ZERO = "c10:cache:max-size-zero"
 
 
 # --------------------------------------------------------------------------- generator
@@ -95,6 +102,12 @@ def _labels(rng, col, k, kind):
         return [base + 0.5 * i for i in range(k)]
     if kind == "bool":
         return [False, True][:k]
+    if kind == "bigint":          # multi-digit / negative / huge integers, unsorted
+        return rng.sample([-1, 0, 7, 10, 11, 100, 12345, 10 ** 9, -10 ** 6, 2 ** 40], k)
+    if kind == "extfloat":        # magnitudes far from O(1); 0.0 and 1e-12 are different states
+        return rng.sample([0.0, 1e-12, -2.5e-7, 1e8, 3.0, 1e-8, 123456.789, -1e8, 0.1, 2.5e-12], k)
+    if kind == "objodd":          # empty string, numeric-looking strings (lexicographic != numeric order), blanks
+        return rng.sample(["", "10", "2", "02", " ", "a b", "None", "nan", "0", "False"], k)
     pool = [f"{col}_{ch}" for ch in "abcdefghij"[:k]]
     rng.shuffle(pool)
     return pool
@@ -115,12 +128,12 @@ def gen_case(seed, idx, tier):
     cols = [f"c{i}" for i in range(n)]
     u = rng.random()
     if u < 0.3:
-        cols = rng.sample(["A", "B", "X y", "z", "Q1", "w"], n)
+        cols = rng.sample(["A", "B", "X y", "z", "Q1", "w", "", "0", "10"], n)   # incl. the empty (falsy) name
     elif u < 0.40:
         # integer column labels: 0..n-1 (pd.DataFrame(ndarray) style) or what is left after dropping / selecting columns
         cols = list(range(n)) if rng.random() < 0.5 else sorted(rng.sample(range(0, 8), n))
     bn = gen.rand_bn_spec(rng, n=n, cards=cards, kind="id", names=cols, max_parents=3, max_joint=10 ** 6)
-    nrows = rng.choice([5, 6, 8, 12, 20, 30, 50, 80, 120, 200] + ([400, 1000] if thorough else []))
+    nrows = rng.choice([1, 2, 3, 5, 6, 8, 12, 20, 30, 50, 80, 120, 200] + ([400, 1000] if thorough else []))
     # forward sampling (plain loop); zeros in the CPTs leave configurations / states unobserved
     order = gen.topo_order(bn["nodes"], [tuple(e) for e in bn["edges"]])
     card = bn["card"]
@@ -142,6 +155,8 @@ def gen_case(seed, idx, tier):
         rows.append([a[c] for c in cols])
     if rng.random() < 0.15 and nrows >= 8:          # duplicated block of rows
         rows = rows[: nrows // 2] + rows[: nrows - nrows // 2]
+    if rng.random() < 0.03:                          # large counts: the whole sample replicated
+        rows = [list(r) for r in rows] * rng.choice([10, 25])
     kinds, labels, declared = {}, {}, {}
     for ci, c in enumerate(cols):
         k = card[c]
@@ -149,10 +164,12 @@ def gen_case(seed, idx, tier):
         kind = rng.choice(KINDS)
         if kind == "bool" and k + extra > 2:
             kind = "int"
+        if kind in ("bigint", "extfloat", "objodd") and k + extra > 10:
+            kind = "int"
         kinds[c] = kind
         declared[c] = k + extra
         labels[c] = _labels(rng, c, k + extra, kind)
-    mode = rng.choice(["all", "all", "some", "none"])
+    mode = rng.choice(["all", "all", "all", "some", "some", "none", "none", "empty"])   # "empty": state_names={}
     if mode == "all":
         sn_cols = list(cols)
     elif mode == "some":
@@ -165,7 +182,8 @@ def gen_case(seed, idx, tier):
         if rng.random() < 0.4:
             rng.shuffle(o)
         sn_order[c] = o
-    ess = rng.choice([1, 5, 10, 10, 0.3, 2.5, 100])
+    ess = rng.choice(ESS_CHOICES)
+    ess_type = rng.choice(["plain", "plain", "np"])       # python number or numpy scalar
     # probes: families of a random DAG on the columns + random extras
     dag = [list(e) for e in gen.rand_dag_edges(rng, list(cols), max_parents=3)]
     par = gen.parents_of(cols, [tuple(e) for e in dag])
@@ -176,6 +194,8 @@ def gen_case(seed, idx, tier):
         probes.append([v, pa])
     for _ in range(rng.randint(1, 4)):
         probes.append(_rand_probe(rng, cols, 4))
+    # container type in which the parents are handed over (first call of each family)
+    pkinds = [rng.choice(["list", "list", "tuple", "set"]) for _ in probes]
     # cache access sequence over a small pool of keys (with parent-order variants)
     pool = [_rand_probe(rng, cols, 3) for _ in range(rng.randint(2, 6))]
     for p in list(pool):
@@ -184,15 +204,20 @@ def gen_case(seed, idx, tier):
             rng.shuffle(q)
             pool.append([p[0], q])
     seq = [rng.randrange(len(pool)) for _ in range(rng.randint(12, 40))]
-    cache = {"max_size": rng.choice([1, 2, 3, 3, 10000]), "pool": pool, "seq": seq,
-             "score": rng.choice(SCORES), "use_dag_score": rng.random() < 0.5}
+    cache = {"max_size": rng.choice([1, 1, 2, 2, 3, 3, 3, 10000, 10000, 10000] + [0] * (rng.random() < 0.3)),
+             "pool": pool, "seq": seq, "pool_kinds": [rng.choice(["list", "list", "tuple", "set"]) for _ in pool],
+             "score": rng.choice(SCORES), "use_dag_score": rng.random() < 0.5,
+             "interleave": sorted(rng.sample(range(len(seq)), rng.randint(0, 3)))}
+    # further models scored by the SAME scorer / cache objects (object reuse)
+    dags2 = [[list(e) for e in gen.rand_dag_edges(rng, list(cols), max_parents=3)] for _ in range(2)]
     perm = list(range(len(rows)))
     rng.shuffle(perm)
     col_order = list(cols)
     if rng.random() < 0.5:
         rng.shuffle(col_order)
     return {"cols": cols, "col_order": col_order, "kinds": kinds, "labels": labels, "declared": declared,
-            "sn_cols": sn_cols, "sn_order": sn_order, "rows": rows, "ess": ess, "dag": dag, "probes": probes,
+            "sn_cols": sn_cols, "sn_order": sn_order, "sn_empty": mode == "empty", "rows": rows, "ess": ess,
+            "ess_type": ess_type, "dag": dag, "dags2": dags2, "probes": probes, "pkinds": pkinds,
             "cache": cache, "perm": perm, "model_cls": rng.choice(["DAG", "BayesianNetwork"]),
             "mec": n <= (5 if thorough else 4), "mec_pairs_seed": rng.randrange(10 ** 6)}
 
@@ -240,25 +265,35 @@ def closed_forms(spec, eff, var, parents, ess):
     a, b = ess / q, ess / (r * q)
     a_s, b_s = ess / q_obs, ess / (r * q_obs)
     k2 = bdeu = bds = ll = 0.0
+    mag = {"k2": 0.0, "bd": 0.0, "ll": 0.0}     # sum of |addends|: the scale on which float64 rounding acts
     for j in configs:
         nj = colsum[j]
         k2 += lgamma(r) - lgamma(nj + r)
         bdeu += lgamma(a) - lgamma(nj + a)
+        mag["k2"] += abs(lgamma(r)) + abs(lgamma(nj + r))
+        mag["bd"] += abs(lgamma(a)) + abs(lgamma(nj + a)) + abs(lgamma(a_s)) + abs(lgamma(nj + a_s))
         if nj > 0:
             bds += lgamma(a_s) - lgamma(nj + a_s)
         for k in states:
             njk = N.get(j, {}).get(k, 0)
             k2 += lgamma(njk + 1)
             bdeu += lgamma(njk + b) - lgamma(b)
+            mag["k2"] += abs(lgamma(njk + 1))
+            mag["bd"] += abs(lgamma(njk + b)) + abs(lgamma(b)) + abs(lgamma(njk + b_s)) + abs(lgamma(b_s))
             if nj > 0:
                 bds += lgamma(njk + b_s) - lgamma(b_s)
             if njk > 0:
                 ll += njk * log(njk / nj)
+                mag["ll"] += njk * (abs(log(njk)) + abs(log(nj)))
     dim = q * (r - 1)
     want = {"k2": k2, "bdeu": bdeu, "bds": bds, "bic": ll - 0.5 * log(ntot) * dim, "aic": ll - dim}
+    mag["ll"] += (0.5 * log(ntot) + 1) * dim
+    scale = {"k2": mag["k2"], "bdeu": mag["bd"], "bds": mag["bd"], "bic": mag["ll"], "aic": mag["ll"]}
+    # comparison tolerance: 1e-9 absolute + 1e-9 relative to the result + 1e-14 relative to the sum of |addends|
+    tol = {s: 1e-9 + 1e-9 * abs(want[s]) + 1e-14 * scale[s] for s in want}
     r_miss = sum(1 for k in states if all(N.get(j, {}).get(k, 0) == 0 for j in configs))
     info = {"r": r, "q": q, "q_obs": q_obs, "r_miss": r_miss, "has_parents": bool(parents),
-            "N": N, "configs": configs, "states": states, "colsum": colsum}
+            "N": N, "configs": configs, "states": states, "colsum": colsum, "tol": tol}
     return want, info
 
 
@@ -269,13 +304,16 @@ def structure_prior(score, nodes, edges):
     return 0.0
 
 
-def close(x, y, atol=1e-9, rtol=1e-9):
+def close(x, y, atol=1e-9, rtol=1e-9, tol=None):
+    """tol (if given) is an absolute bound that already contains the magnitude-aware terms."""
     try:
         x, y = float(x), float(y)
     except Exception:
         return False
     if math.isnan(x) or math.isnan(y):
         return False
+    if tol is not None:
+        return x == y or abs(x - y) <= tol
     return x == y or abs(x - y) <= atol + rtol * abs(y)
 
 
@@ -331,11 +369,12 @@ def _emit(ctx, emitted, key, what, cap=2, **detail):
 
 def judge_local(ctx, emitted, score, got, want, info, ess, label, **detail):
     """True iff got == closed form."""
-    if close(got, want):
+    tol = info["tol"][score]
+    if close(got, want, tol=tol):
         ctx.ok()
         return True
     for keys, pred in defect_hypotheses(score, info, want, ess):
-        if close(got, pred, atol=1e-8, rtol=1e-9):
+        if close(got, pred, tol=10 * tol):
             for k in keys:
                 _emit(ctx, emitted, k, f"{label} = {got!r}, closed form {want!r} (r={info['r']}, q={info['q']}, observed "
                               f"configurations={info['q_obs']}, declared-but-unobserved child states={info['r_miss']}); "
@@ -358,13 +397,13 @@ def build_frame(spec, rows=None, index=None):
         lab = spec["labels"][c]
         vals = [lab[row[ci[c]]] for row in rows]
         kind = spec["kinds"][c]
-        if kind in ("int", "intoff"):
+        if kind in ("int", "intoff", "bigint"):
             s = pd.Series(vals, dtype="int64", index=index)
-        elif kind == "float":
+        elif kind in ("float", "extfloat"):
             s = pd.Series(vals, dtype="float64", index=index)
         elif kind == "bool":
             s = pd.Series(vals, dtype="bool", index=index)
-        elif kind == "obj":
+        elif kind in ("obj", "objodd"):
             s = pd.Series(np.array(vals, dtype=object), dtype=object, index=index)
         else:
             if c in spec["sn_cols"]:
@@ -378,15 +417,26 @@ def build_frame(spec, rows=None, index=None):
 
 def state_names_arg(spec):
     if not spec["sn_cols"]:
-        return None
+        return {} if spec.get("sn_empty") else None      # {} must behave like "nothing declared"
     return {c: [spec["labels"][c][i] for i in spec["sn_order"][c]] for c in spec["sn_cols"]}
+
+
+def ess_arg(spec):
+    if spec.get("ess_type") == "np":
+        import numpy as np
+        return np.float64(spec["ess"]) if isinstance(spec["ess"], float) else np.int64(spec["ess"])
+    return spec["ess"]
+
+
+def as_container(parents, kind):
+    return tuple(parents) if kind == "tuple" else set(parents) if kind == "set" else list(parents)
 
 
 def make_scorers(spec, df, sn):
     from pgmpy.estimators import AICScore, BDeuScore, BDsScore, BicScore, K2Score
     kw = {} if sn is None else {"state_names": {k: list(v) for k, v in sn.items()}}
-    return {"k2": K2Score(df, **kw), "bdeu": BDeuScore(df, equivalent_sample_size=spec["ess"], **kw),
-            "bds": BDsScore(df, equivalent_sample_size=spec["ess"], **kw), "bic": BicScore(df, **kw),
+    return {"k2": K2Score(df, **kw), "bdeu": BDeuScore(df, equivalent_sample_size=ess_arg(spec), **kw),
+            "bds": BDsScore(df, equivalent_sample_size=ess_arg(spec), **kw), "bic": BicScore(df, **kw),
             "aic": AICScore(df, **kw)}
 
 
@@ -434,13 +484,20 @@ def run_case(spec, ctx):
             ctx.feature("card1")
         if len(eff[c]) >= 3:
             ctx.feature("card>=3")
-    ctx.feature("state_names:" + ("none" if sn is None else "all" if len(sn) == len(cols) else "some"))
+    ctx.feature("state_names:" + ("none" if sn is None else "empty-dict" if not sn else
+                                  "all" if len(sn) == len(cols) else "some"))
+    ctx.feature("ess:" + ("tiny" if ess < 0.01 else "huge" if ess >= 1e4 else "non-integer" if ess != int(ess) else "integer"))
+    if len(spec["rows"]) <= 3:
+        ctx.feature(f"rows:{len(spec['rows'])}")
+    if len(spec["rows"]) > 1000:
+        ctx.feature("rows:>1000")
     ctx.feature("column-labels:" + ("int" if isinstance(cols[0], int) else "str"))
 
     # ---- local scores against the closed forms
     got_local = {}            # (score, var, tuple(parents)) -> float or None
     local_ok = {}             # same key -> bool (matches closed form)
     want_local = {}
+    tol_local = {}
     answers = []
     full_probe = False
     emitted = {}
@@ -474,11 +531,11 @@ def run_case(spec, ctx):
             cf_cache[k] = closed_forms(spec, eff, var, list(parents), ess)
         return cf_cache[k]
 
-    def local(score, var, parents):
+    def local(score, var, parents, kind="list"):
         key = (score, var, tuple(parents))
         if key in got_local:
             return got_local[key]
-        r = ctx.call(scorers[score].local_score, var, list(parents))
+        r = ctx.call(scorers[score].local_score, var, as_container(parents, kind))
         if ctx.failed(r):
             exc(f"{score}.local_score({var!r}, {list(parents)!r})", r, score, [(var, list(parents))],
                 kinds=spec["kinds"], sn_cols=spec["sn_cols"])
@@ -493,6 +550,7 @@ def run_case(spec, ctx):
             return None
         want, info = cf(var, parents)
         want_local[key] = want[score]
+        tol_local[key] = info["tol"][score]
         if info["q_obs"] < info["q"]:
             ctx.feature("unobserved-parent-configuration")
         if info["r_miss"] > 0:
@@ -503,8 +561,9 @@ def run_case(spec, ctx):
         got_local[key] = v
         return v
 
-    for var, parents in spec["probes"]:
-        vals = [local(s, var, parents) for s in SCORES]
+    for (var, parents), pkind in zip(spec["probes"], spec["pkinds"]):
+        vals = [local(s, var, parents, pkind) for s in SCORES]
+        ctx.feature("parents-as:" + ("empty-" if not parents else "") + pkind)
         answers.extend(vals)
         if parents and all(v is not None for v in vals):
             full_probe = True
@@ -522,7 +581,7 @@ def run_case(spec, ctx):
                 if ctx.failed(r):
                     ctx.violation(f"c10:exception:{r.type}@{r.where}", f"{s}.local_score({var!r}, {alt!r}) raised {r!r}")
                     continue
-                ctx.expect(close(r, v0), "c10:parent-order-dependence",
+                ctx.expect(close(r, v0, tol=tol_local.get((s, var, tuple(parents)), 1e-9)), "c10:parent-order-dependence",
                            f"{s}.local_score({var!r}, {alt!r}) = {r!r} but with parents listed as {list(parents)!r} "
                            f"it is {v0!r}")
     ctx.nontrivial = len(cols) >= 2 and full_probe
@@ -544,7 +603,7 @@ def run_case(spec, ctx):
                 if ctx.failed(r):
                     ctx.violation(f"c10:exception:{r.type}@{r.where}", f"{s}.local_score on permuted rows raised {r!r}")
                     continue
-                ctx.expect(close(r, v0), "c10:row-order-dependence",
+                ctx.expect(close(r, v0, tol=tol_local.get((s, var, tuple(parents)), 1e-9)), "c10:row-order-dependence",
                            f"{s}.local_score({var!r}, {list(parents)!r}) = {r!r} on row-permuted data, {v0!r} on the original")
 
     # ---- network score: sum of locals + prior; metrics.structure_score
@@ -559,7 +618,7 @@ def run_case(spec, ctx):
         p = gen.parents_of(node_list, edge_list)
         keys = [(score, v, tuple(p[v])) for v in node_list]
         # family locals in whichever parent order was probed; fall back to sorted order
-        parts, all_ok = [], True
+        parts, all_ok, tsum = [], True, 1e-9
         for (s, v, pa) in keys:
             cand = [k for k in got_local if k[0] == s and k[1] == v and sorted(k[2]) == sorted(pa)
                     and got_local[k] is not None]
@@ -571,13 +630,15 @@ def run_case(spec, ctx):
                 return          # local score raised: already reported
             parts.append(got_local[cand[0]])
             all_ok = all_ok and local_ok[cand[0]]
+            tsum += cf(v, sorted(pa))[1]["tol"][s]
         prior = structure_prior(score, node_list, edge_list)
-        ctx.expect(close(g, sum(parts) + prior, atol=1e-8), detail_key,
+        tsum += 1e-9 * abs(g)
+        ctx.expect(close(g, sum(parts) + prior, tol=tsum), detail_key,
                    f"{label} = {g!r} but sum of its own local scores {sum(parts)!r} + structure prior {prior!r} = "
                    f"{sum(parts) + prior!r}", edges=edge_list)
         if all_ok:
             wsum = sum(cf(v, sorted(p[v]))[0][score] for v in node_list) + prior
-            ctx.expect(close(g, wsum, atol=1e-8), f"c10:wrong-network-score:{score}",
+            ctx.expect(close(g, wsum, tol=tsum), f"c10:wrong-network-score:{score}",
                        f"{label} = {g!r}, closed form {wsum!r}", edges=edge_list)
         else:
             ctx.note("network-closed-form-skipped(local defect already reported)")
@@ -597,7 +658,7 @@ def run_case(spec, ctx):
         if sn is not None:
             kw["state_names"] = {k: list(v) for k, v in sn.items()}
         if s in ("bdeu", "bds"):
-            kw["equivalent_sample_size"] = ess
+            kw["equivalent_sample_size"] = ess_arg(spec)
         r = ctx.call(structure_score, model, df, scoring_method=s, **kw)
         if ctx.failed(r):
             exc(f"structure_score(..., {s!r})", r, s, [(v, par[v]) for v in cols], edges=edges)
@@ -606,10 +667,35 @@ def run_case(spec, ctx):
         judge_network(f"metrics.structure_score(scoring_method={s!r}, edges={edges})", r, s, cols, edges,
                       detail_key="c10:structure-score-wrapper")
         if s in net and net[s] is not None:
-            ctx.expect(close(r, net[s]), "c10:structure-score-wrapper",
+            ctx.expect(close(r, net[s], tol=1e-9 + 1e-9 * abs(net[s])), "c10:structure-score-wrapper",
                        f"structure_score(..., {s!r}) = {r!r} but {s} scorer .score(model) = {net[s]!r}")
 
-    # ---- cached == uncached, recomputation trace == reference LRU model
+    # ---- object reuse: the SAME scorer objects score further, different models; each answer judged for THAT model
+    models2 = []
+    for k, e2 in enumerate(spec["dags2"]):
+        e2 = [tuple(e) for e in e2]
+        m2 = make_model("DAG" if k else spec["model_cls"], cols, e2, rng=random.Random(spec["mec_pairs_seed"] + 2 + k))
+        models2.append((m2, e2))
+        for s in SCORES:
+            r = ctx.call(scorers[s].score, m2)
+            if ctx.failed(r):
+                exc(f"{s}.score(model #{k + 2})", r, s, list(gen.parents_of(cols, e2).items()), edges=e2)
+                continue
+            answers.append(_num(r))
+            judge_network(f"{s}.score(reused scorer, DAG {e2})", r, s, cols, e2)
+    # ... and the first model again: a scorer must not remember the models in between
+    for s in SCORES:
+        if net.get(s) is None:
+            continue
+        r = ctx.call(scorers[s].score, model)
+        if ctx.failed(r):
+            exc(f"{s}.score(model) asked again", r, s, [(v, par[v]) for v in cols], edges=edges)
+            continue
+        ctx.expect(close(r, net[s], tol=1e-12 + 1e-12 * abs(net[s])), "c10:scorer-state-leak",
+                   f"{s}.score(model) = {r!r} when asked again after scoring other models, first answer {net[s]!r}",
+                   edges=edges)
+
+    # ---- cached == uncached: one ScoreCache object serves local scores AND several network scores, interleaved
     cs = spec["cache"]
     base = make_scorers(spec, df, sn)[cs["score"]]
     plain = scorers[cs["score"]]
@@ -622,24 +708,64 @@ def run_case(spec, ctx):
 
     base.local_score = counting                    # instance attribute: observed from outside, class untouched
     cache = ctx.call(ScoreCache, base, df, max_size=cs["max_size"])
+
+    def cached_network(label, m, e):
+        """cache.score(m) must equal the uncached scorer's .score(m) for THIS model."""
+        r = ctx.call(cache.score, m)
+        if ctx.failed(r):
+            cache_exc(label, r, list(gen.parents_of(cols, e).items()))
+            return
+        u0 = ctx.call(plain.score, m)
+        if ctx.failed(u0):
+            return                                  # uncached failure is reported where the scorer is judged
+        u = _num(u0)
+        answers.append(_num(r))
+        if close(r, u, tol=1e-9 + 1e-9 * abs(u)):
+            ctx.ok()
+            return
+        prior = structure_prior(cs["score"], cols, e)
+        if prior != 0.0 and close(_num(r) + prior, u, tol=1e-9 + 1e-9 * abs(u)):
+            ctx.violation(K_CACHE_PRIOR, f"{label} = {r!r}, uncached {cs['score']}.score = {u!r}: the base scorer's "
+                          f"structure prior {prior!r} is missing from the cached network score", edges=e)
+        else:
+            ctx.violation("c10:cache-network-score", f"{label} = {r!r}, uncached {cs['score']}.score = {u!r}",
+                          edges=e, max_size=cs["max_size"])
+
+    def cache_exc(label, r, families):
+        # structural classifier: max_size == 0 (accepted by the constructor) - confirmed by the same call on a
+        # cache of max_size 1 over the same base scorer
+        if cs["max_size"] == 0 and r.type in ("TypeError", "KeyError") and "ScoreCache.py" in r.where:
+            c1 = ctx.call(ScoreCache, base, df, max_size=1)
+            v, pa = families[0]
+            if not ctx.failed(c1) and not ctx.failed(ctx.call(c1.local_score, v, list(pa))):
+                _emit(ctx, emitted, K_CACHE_ZERO, f"{label} raised {r!r} on a ScoreCache constructed with max_size=0", cap=1)
+                return
+        exc(label, r, cs["score"], families, max_size=cs["max_size"])
+
     if ctx.failed(cache):
-        ctx.violation(f"c10:exception:{cache.type}@{cache.where}", f"ScoreCache(...) raised {cache!r}")
+        ctx.violation(f"c10:exception:{cache.type}@{cache.where}", f"ScoreCache(max_size={cs['max_size']}) raised {cache!r}")
     else:
         from collections import OrderedDict
         lru = OrderedDict()
         ctx.feature(f"cache-max_size:{cs['max_size']}")
         evictions = 0
-        lru_ok = True
+        lru_ok = cs["max_size"] > 0
+        all_models = [(model, edges)] + models2
         for step, pi in enumerate(cs["seq"]):
+            if step in cs["interleave"]:
+                k = cs["interleave"].index(step) % len(all_models)
+                cached_network(f"ScoreCache({cs['score']}, max_size={cs['max_size']}).score(model #{k + 1}) "
+                               f"before access {step}", *all_models[k])
+                ctx.feature("cache-interleaved-network-score")
+                lru_ok = False                      # reference LRU trace no longer comparable
             var, parents = cs["pool"][pi]
             key = (var, tuple(parents))
             n0 = len(trace)
-            r = ctx.call(cache.local_score, var, list(parents))
+            r = ctx.call(cache.local_score, var, as_container(parents, cs["pool_kinds"][pi]))
             if ctx.failed(r):
-                exc(f"ScoreCache.local_score({var!r}, {list(parents)!r}) at access {step}", r, cs["score"],
-                    [(var, list(parents))], max_size=cs["max_size"])
-                if key in lru:
-                    lru.move_to_end(key)       # a raising access caches nothing; a hit cannot raise
+                cache_exc(f"ScoreCache.local_score({var!r}, {list(parents)!r}) at access {step}", r, [(var, list(parents))])
+                if cs["max_size"] == 0 and step >= 2:
+                    break
                 continue
             u = got_local.get((cs["score"], var, tuple(parents)))
             if u is None:
@@ -649,46 +775,47 @@ def run_case(spec, ctx):
                     got_local[(cs["score"], var, tuple(parents))] = u
                     local_ok.setdefault((cs["score"], var, tuple(parents)), False)
             if u is not None:
-                ctx.expect(close(r, u, atol=1e-12, rtol=1e-12), "c10:cache-value",
+                ctx.expect(close(r, u, tol=tol_local.get((cs["score"], var, tuple(parents)), 1e-9 + 1e-9 * abs(u))),
+                           "c10:cache-value",
                            f"ScoreCache({cs['score']}, max_size={cs['max_size']}).local_score({var!r}, {list(parents)!r}) "
                            f"= {r!r} at access {step}, uncached scorer gives {u!r}", seq=cs["seq"][: step + 1])
             answers.append(_num(r))
-            # reference LRU model
-            recomputed = trace[n0:]
-            if key in lru:
-                lru.move_to_end(key)
-                expect_calls = []
-            else:
-                if len(lru) >= cs["max_size"]:
-                    lru.popitem(last=False)
-                    evictions += 1
-                lru[key] = True
-                expect_calls = [key]
-            # The eviction policy itself is NOT part of the property (only "cached == uncached" is):
-            # a deviation from the LRU reference is reported as a note, never as a violation.
-            if lru_ok and recomputed != expect_calls:
-                lru_ok = False
-                ctx.note("cache-recomputation-differs-from-lru-reference")
-        if evictions:
-            ctx.feature("cache-evictions")
-        # cached network score == uncached network score
-        if cs["use_dag_score"]:
-            r = ctx.call(cache.score, model)
-            u = net.get(cs["score"])
-            if ctx.failed(r):
-                exc("ScoreCache.score(model)", r, cs["score"], [(v, par[v]) for v in cols])
-            elif u is not None:
-                if not close(r, u, atol=1e-9):
-                    prior = structure_prior(cs["score"], cols, edges)
-                    if prior != 0.0 and close(_num(r) + prior, u, atol=1e-9):
-                        ctx.violation(K_CACHE_PRIOR, f"ScoreCache({cs['score']}).score(model) = {r!r}, uncached "
-                                      f"{cs['score']}.score(model) = {u!r}: the base scorer's structure prior "
-                                      f"{prior!r} is missing from the cached network score", edges=edges)
-                    else:
-                        ctx.violation("c10:cache-network-score", f"ScoreCache({cs['score']}).score(model) = {r!r}, "
-                                      f"uncached = {u!r}", edges=edges)
+            # reference LRU model.  The eviction policy itself is NOT part of the property (only "cached ==
+            # uncached" is): a deviation from the LRU reference is reported as a note, never as a violation.
+            if lru_ok:
+                recomputed = trace[n0:]
+                if key in lru:
+                    lru.move_to_end(key)
+                    expect_calls = []
                 else:
-                    ctx.ok()
+                    if len(lru) >= cs["max_size"]:
+                        lru.popitem(last=False)
+                        evictions += 1
+                    lru[key] = True
+                    expect_calls = [key]
+                if [(a, tuple(sorted(b, key=repr))) for a, b in recomputed] != \
+                        [(a, tuple(sorted(b, key=repr))) for a, b in expect_calls] and cs["pool_kinds"][pi] != "set":
+                    lru_ok = False
+                    ctx.note("cache-recomputation-differs-from-lru-reference")
+        if evictions or (0 < cs["max_size"] < len(cs["pool"])):
+            ctx.feature("cache-evictions")
+        # the same cache object then scores every model (and the first one again)
+        if cs["use_dag_score"]:
+            for k, (m, e) in enumerate(all_models + [all_models[0]]):
+                cached_network(f"ScoreCache({cs['score']}, max_size={cs['max_size']}).score(model #{k % len(all_models) + 1})", m, e)
+
+    # ---- the same scorer objects, asked the first questions again at the end of the case (state must not leak)
+    for (var, parents) in spec["probes"][:3]:
+        for s in SCORES:
+            v0 = got_local.get((s, var, tuple(parents)))
+            if v0 is None:
+                continue
+            r = ctx.call(scorers[s].local_score, var, list(parents))
+            if ctx.failed(r):
+                exc(f"{s}.local_score({var!r}, {list(parents)!r}) asked again", r, s, [(var, list(parents))])
+                continue
+            ctx.expect(close(r, v0, tol=tol_local.get((s, var, tuple(parents)), 1e-9)), "c10:scorer-state-leak",
+                       f"{s}.local_score({var!r}, {list(parents)!r}) = {r!r} at the end of the case, {v0!r} at the start")
 
     # ---- score equivalence inside every Markov-equivalence class (exhaustive over the DAGs on the columns)
     if spec["mec"]:
@@ -699,6 +826,7 @@ def run_case(spec, ctx):
         for s in EQUIV_SCORES:
             fam = {}
             bad = False
+            famtol = 0.0
             for vi in idx_nodes:
                 others = [x for x in idx_nodes if x != vi]
                 for k in range(len(others) + 1):
@@ -707,6 +835,7 @@ def run_case(spec, ctx):
                         if v is None:
                             bad = True
                         fam[(vi, pa)] = v
+                        famtol = max(famtol, tol_local.get((s, cols[vi], tuple(cols[x] for x in pa)), 0.0))
             if bad:
                 ctx.note("mec-skipped(local score raised)")
                 continue
@@ -721,7 +850,7 @@ def run_case(spec, ctx):
                     p = gen.parents_of(idx_nodes, m)
                     tot.append(sum(fam[(v, tuple(sorted(p[v])))] for v in idx_nodes))
                 lo, hi = min(tot), max(tot)
-                if not close(lo, hi, atol=1e-8):
+                if not close(lo, hi, tol=1e-8 + 2 * n * famtol):
                     if worst is None or hi - lo > worst[0]:
                         worst = (hi - lo, members[tot.index(lo)], members[tot.index(hi)], lo, hi)
             if worst is None:
@@ -759,7 +888,13 @@ def run_case(spec, ctx):
                 if vals:
                     answers.extend(vals)
 
-    ctx.xcell["scores"] = [None if a is None else float(a) for a in answers]
+    # hash-seed independence of every returned number.  With set-typed parents the summation order inside pgmpy
+    # follows the hash seed; at ess >= 1e4 the addends are ~1e7 and rounding alone exceeds the parent's 1e-9 band.
+    any_set = "set" in spec["pkinds"] or "set" in spec["cache"]["pool_kinds"]
+    if any_set and ess >= 1e3:
+        ctx.note("xcell-skipped(set-typed parents with huge ess: rounding follows hash order)")
+    else:
+        ctx.xcell["scores"] = [None if a is None else float(a) for a in answers]
 
 
 def _observed(spec, c):
